@@ -207,6 +207,33 @@ def run_inside(ctx):
         k = h(r["h"], ctx.seed) + r["r2"]
         for pl in ([pal[0], pal[1 + k % (len(pal) - 1)]] if ctx.tier == "quick" else pal):
             cases.append({"rec": r, "pl": pl.to_json()})
+    # general convex cores: exact point-polytope distances from Convex3.tla
+    from . import convex_driver as cd
+    # the exact distance of ~1000 lattice points per state is costly in TLC: random growth instead of the full subset lattice
+    q = ctx.tier == "quick"
+    from concurrent.futures import ThreadPoolExecutor
+    with ThreadPoolExecutor(max_workers=4) as ex:
+        f1 = ex.submit(cd.emit, ctx, "U12", 8, simulate=3 if q else 40, depth=5, minpts=5, rnd=True)
+        f2 = ex.submit(cd.emit, ctx, "E21", 10, simulate=1 if q else 20, depth=7, minpts=5, rnd=True)
+        # named cores with sharp ridges next to nearly flat facets (only the complete point sets)
+        f3 = ex.submit(cd.emit, ctx, "Blade", 7, minpts=7, rnd=True)
+        f4 = ex.submit(cd.emit, ctx, "Slab", 9, minpts=9, rnd=True)
+        grecs = f1.result() + f2.result() + [r for r in f3.result() if len(r["v"]) == 7] + [r for r in f4.result() if len(r["v"]) == 9]
+    gcases = []
+    for r in grecs:
+        pal = palette(7, ctx.tier)
+        k = h(r["v"], ctx.seed)
+        gcases.append({"rec": r, "pl": pal[k % len(pal)].to_json(), "radii": [[1, 2], [3, 2], [3, 1]]})
+        if len(r["v"]) in (7, 9) and r["v"][0][2] == 0:
+            gcases.append({"rec": r, "pl": pal[0].to_json(), "radii": [[1, 1], [2, 1], [7, 2]]})
+    for case, (mism, st) in zip(gcases, pmap(eval_round_inside, gcases)):
+        ctx.case(("roundcore", json.dumps(case["rec"]["v"]), json.dumps(case["pl"])), nontrivial=True,
+                 sample={"core_vertices": case["rec"]["v"], "radii": case["radii"], "placement": case["pl"],
+                         "example_point_and_squared_distance": [case["rec"]["dq"][0], case["rec"]["d2"][0]]})
+        ctx.traces += 1
+        ctx.unclear += st.get("unclear", 0)
+        for sig, detail in mism:
+            ctx.violation(sig, detail)
     for case, (mism, st) in zip(cases, pmap(eval_box_inside, cases)):
         ctx.case(("spherobox", json.dumps(case["rec"]["h"]), case["rec"]["r2"], json.dumps(case["pl"])), nontrivial=True,
                  sample={"half_extents": case["rec"]["h"], "radius": case["rec"]["r2"] / 2, "placement": case["pl"]})
@@ -214,3 +241,47 @@ def run_inside(ctx):
         ctx.unclear += st.get("unclear", 0)
         for sig, detail in mism:
             ctx.violation(sig, detail)
+
+
+def eval_round_inside(case):
+    """ConvexSpheropolyhedron.is_inside over a general convex lattice core: exact squared distances from Convex3.tla."""
+    import numpy as np
+    import coxeter
+    rec = case["rec"]
+    pl = Placement.from_json(case["pl"])
+    out = []
+    tags = ["nv%d" % len(rec["v"]), "general_core"] + pl.tags()
+    verts = np.array(fl(pl.points(rec["v"])), dtype=float)
+    pts_all = np.array(fl(pl.points(rec["dq"])), dtype=float)
+    d2 = [F(x[0], x[1]) for x in rec["d2"]]
+    unclear = 0
+    for rr in case["radii"]:
+        r = F(rr[0], rr[1])
+        try:
+            Q = coxeter.shapes.ConvexSpheropolyhedron(verts.copy(), float(pl.s * r))
+        except Exception as e:
+            out.append(({"cls": "ConvexSpheropolyhedron", "obs": "construct", "tags": tags, "msg": str(e)}, {"case": case}))
+            continue
+        keep, want = [], []
+        for i, x in enumerate(d2):
+            if x == 0:
+                continue                      # inside or on the core: covered by the core's own check
+            if abs(float(x) - float(r * r)) <= 1e-6 * float(r * r + 1):
+                unclear += 1
+                continue
+            if x > (r + 1) ** 2 or (r > 1 and x < (r - 1) ** 2 and len(keep) % 7):
+                continue                      # far from the rounded surface: nothing to learn (is_inside is slow per point)
+            keep.append(i)
+            want.append(x < r * r)
+        want = np.array(want)
+        try:
+            got = np.asarray(Q.is_inside(pts_all[keep])).astype(bool)
+            if got.shape != want.shape or not np.array_equal(got, want):
+                j = int(np.nonzero(got != want)[0][0]) if got.shape == want.shape else 0
+                out.append(({"cls": "ConvexSpheropolyhedron", "obs": "is_inside", "tags": tags + ["r=%s" % r],
+                             "msg": f"lattice point {rec['dq'][keep[j]]} at exact distance sqrt({d2[keep[j]]}) from the core reported "
+                                    f"{bool(got[j]) if got.shape == want.shape else got.shape} for r = {r}"}, {"case": case}))
+        except Exception as e:
+            out.append(({"cls": "ConvexSpheropolyhedron", "obs": "is_inside", "tags": tags + ["raised"],
+                         "msg": f"raised {type(e).__name__}: {str(e)[:200]}"}, {"case": case}))
+    return out, {"unclear": unclear}
